@@ -28,7 +28,7 @@ def copt(o):
 def gen_model(rng, idx):
   import tensorflow.keras.layers as L
   from tensorflow.keras import Model, Input
-  acts = [None, "relu", "tanh", "sigmoid", "softmax", "linear"]
+  acts = [None, "relu", "tanh", "sigmoid", "softmax", "linear", "relu6", "hard_sigmoid", "elu", "softplus"]   # names that CONTAIN relu / sigmoid must stay untouched
   functional = bool(rng.integers(0, 2))
   inp = Input((8, 8, 3), name=f"in{idx}")
   x = inp
